@@ -33,6 +33,9 @@ pub struct SemStats {
     pub frontend_rejected: Vec<(String, String)>,
     pub rustc_rejected: Vec<(String, String)>,
     pub envelope_scripts: u64,
+    pub envelope_reasons: std::collections::BTreeMap<String, u64>,
+    /// programs skipped because a known, separately reported limitation applies
+    pub known_limit: std::collections::BTreeMap<String, u64>,
     pub hangs: u64,
     pub missing: u64,
     pub build_s: f64,
@@ -48,6 +51,12 @@ pub struct Failure {
 
 /// Evaluate the model on every script; scripts that leave the model's envelope are dropped.
 pub fn prepare(case: SemCase, stats: &mut SemStats) -> Option<Prepared> {
+    prepare_opts(case, stats, false)
+}
+
+/// `probe = true`: do not apply the known-finding exclusions (used for the probes themselves and
+/// for replay).
+pub fn prepare_opts(case: SemCase, stats: &mut SemStats, probe: bool) -> Option<Prepared> {
     let analysis = match analyze(&case.prog) {
         Ok(a) => a,
         Err(e) => panic!("case outside the generated domain: {e}"),
@@ -56,8 +65,9 @@ pub fn prepare(case: SemCase, stats: &mut SemStats) -> Option<Prepared> {
     let mut expected = vec![];
     for s in &case.scripts {
         let ex = run_script(&case.prog, s);
-        if ex.invalid.is_some() {
+        if let Some(why) = &ex.invalid {
             stats.envelope_scripts += 1;
+            *stats.envelope_reasons.entry(why.clone()).or_default() += 1;
             continue;
         }
         scripts.push(s.clone());
@@ -74,6 +84,23 @@ pub fn prepare(case: SemCase, stats: &mut SemStats) -> Option<Prepared> {
             return None;
         }
     };
+    // multiset_delta realised as a push operator does not type-check (its generated closure calls
+    // a method on an item whose type rustc cannot know yet, and the operator takes no type
+    // argument): reported under C22 (accept/reject disagreement); skipped everywhere else.
+    if let (Some(sh), false) = (&shape, probe) {
+        if let Some(why) = crate::known::excluded_by_known_finding(&case.prog, sh) {
+            *stats.known_limit.entry(why.into()).or_default() += 1;
+            return None;
+        }
+    }
+    if let Some(sh) = &shape {
+        for (idx, (role, _)) in &sh.nodes {
+            if matches!(case.prog.nodes[*idx].op, Op::MultisetDelta) && *role == Role::Push {
+                *stats.known_limit.entry("multiset_delta-on-push-side-does-not-typecheck".into()).or_default() += 1;
+                return None;
+            }
+        }
+    }
     Some(Prepared { case: SemCase { prog: case.prog, scripts }, analysis, expected, shape, dfir: d.text })
 }
 
@@ -163,7 +190,7 @@ pub fn describe(case: &SemCase, script_idx: usize, m: &Mismatch) -> String {
 /// Replay / single-case entry: run exactly this case in a one-program crate.
 pub fn run_single(batch_name: &str, case: &SemCase, obs: &mut Obs) -> Result<(), Fail> {
     let mut stats = SemStats::default();
-    let Some(p) = prepare(case.clone(), &mut stats) else {
+    let Some(p) = prepare_opts(case.clone(), &mut stats, true) else {
         return Err(Fail::new("replay:not-runnable", "the replayed case is rejected by the front end or leaves the model envelope"));
     };
     let prepared = vec![p];
@@ -187,6 +214,8 @@ pub fn stats_json(stats: &SemStats) -> serde_json::Value {
         "rustc_rejected": stats.rustc_rejected.len(),
         "rustc_rejected_samples": stats.rustc_rejected.iter().take(3).map(|(p, m)| json!({"program": p, "message": m})).collect::<Vec<_>>(),
         "scripts_outside_model_envelope": stats.envelope_scripts,
+        "envelope_reasons": stats.envelope_reasons,
+        "skipped_known_limitations": stats.known_limit,
         "hangs": stats.hangs,
         "missing_outputs": stats.missing,
         "build_s": stats.build_s,
@@ -202,6 +231,9 @@ pub fn conclude(ctx: &mut Ctx, stats: &SemStats, generated: u64) {
     ctx.count_excluded("generator-typing-bug(front end rejected)", stats.frontend_rejected.len() as u64);
     ctx.count_excluded("generator-typing-bug(rustc rejected)", stats.rustc_rejected.len() as u64);
     ctx.count_excluded("script-outside-model-envelope", stats.envelope_scripts);
+    for (k, v) in &stats.known_limit {
+        ctx.count_excluded(k, *v);
+    }
     if generated > 0 && rejected * 20 > generated {
         ctx.inconclusive(format!(
             "{rejected} of {generated} generated programs were rejected by the front end / rustc (> 5 %): generator typing bugs"
